@@ -2588,6 +2588,10 @@ class UTPM(Ring, RawAlgorithmsMixIn):
             xbar = out[0]
 
         cls._pb_reshape(ybar.data, x.data, y.data, out = xbar.data)
+        if not numpy.shares_memory(ybar.data, xbar.data):
+            # reshape of non-contiguous data (e.g. a transposed view) returns a copy, so ybar is
+            # not a view of xbar and its contents have to be accumulated explicitly
+            xbar.data += numpy.reshape(ybar.data, x.data.shape)
         return xbar
 
 
